@@ -47,8 +47,9 @@ RULE = ("lambert cases = Keplerian arcs (a 6600..105000 km, e in {0, 1e-12..1e-3
 ASSUME = ["refs/keplerref.py (eccentric-anomaly-difference f and g propagation) is the two-body reference; mu is the repository's Earth.mu",
           "sensor ECI states are inputs: ground sites are placed with refs/geomref.ellipsoid_point and rotated to ECI by the repository's "
           "ecef2eci (C04 covers that conversion); the oracle (true target position) does not depend on it",
-          "Lambert velocity budget: universal 2e-8*|v| (bisection stops at |dt| < 1.48e-8 s; worst seen 1.4e-10*|v| on 1.3e5 arcs), Battin "
-          "6e-6*|v| (fixed-point tolerance 1.48e-8 on x and 21-term continued fractions; worst seen 5.9e-8*|v| on 1.3e5 arcs); closure "
+          "Lambert velocity budget: universal 2e-8*|v| (bisection stops at |dt| < 1.48e-8 s; worst seen 1.4e-10*|v| on 1e6 arcs), Battin "
+          "1e-5*|v| (fixed-point tolerance 1.48e-8 on x and 21-term continued fractions; worst seen 6.1e-8*|v| on 1.1e6 arcs, at e=0.7, "
+          "transfer 185 deg, tof 0.91 P); closure "
           "tolerance = |d(r2,v2)/d v1| (from keplerref) * budget",
           "radar inversion tolerance = range * (2e-12 + min(3e-14/cos(el), 2e-6)): arcsin in the measurement model loses sqrt(eps) at the "
           "zenith (worst seen 1.5e-14 relative away from, 8e-9 at the zenith)",
@@ -68,7 +69,7 @@ MANIFEST = {
 }
 
 SOLVERS = ("universal", "battin")
-REL_BUDGET = {"universal": 2e-8, "battin": 6e-6}
+REL_BUDGET = {"universal": 2e-8, "battin": 1e-5}
 DT_BUDGET_S = 4e-3           # 100 x resolution of a float64 Julian date near 2.46e6 (4.0e-5 s)
 SINGLE_PASS_FACTOR = 0.5 ** 1.5   # period of an orbit with sma = r/2, relative to the circular period at r
 D0 = datetime(2014, 1, 3)
